@@ -18,8 +18,18 @@ def size_fields_wide_enough(cs, h):
 
 def oracle(cs, h, lines):
     fails = []
-    if lines and (lines[-1] in ('oob', 'assert') or lines[-1].startswith('killed')):
-        return []          # memory-safety failures are C02's subject; nothing to decode after a crash
+    if lines and lines[-1] == 'oob':
+        # the run stopped at a store outside the packet buffer (guard page).  If that happened inside a tracing
+        # call which had passed its enable test and was not counted as discarded, the record of that call is not
+        # inside any packet and is not counted: neither outcome of the property
+        segs = rt.segments(lines)
+        ncalls = len(segs)
+        if ncalls and ncalls <= len(h['calls']) and h['calls'][ncalls - 1][0] == 'trace':
+            return [f'tracing call #{ncalls} ({h["calls"][ncalls - 1][1]}) stores outside the packet buffer while its record is '
+                    'serialised: the record is neither inside a delivered packet nor counted as discarded']
+        return []
+    if lines and (lines[-1] == 'assert' or lines[-1].startswith('killed')):
+        return []          # nothing to decode after a crash; C02 reports it
     if cs.md is None or not size_fields_wide_enough(cs, h):
         return []
     facts = rt.call_facts(cs, h, lines)
@@ -70,7 +80,7 @@ def run(c):
     n, k = (8, 40) if c.tier == 'quick' else (60, 150)
     rt.replay_witnesses(c, oracle)
     cases, dis, stats = rt.run_rt(c, oracle, n, k, gen_hist=rt.flushing(hrt.gen_history), known_classifier=rt.known_by(c, [('F9', rt.f9_territory)]))
-    rt.decide(c, ob, dis)
+    rt.decide(c, ob, dis, oracle=oracle, known_classifier=rt.known_by(c, [('F9', rt.f9_territory)]))
     if c.tier == 'thorough' and ob['ok']:
         ok, log = c.leanchecker(['BVM.Props.C03'])
         if not ok:
